@@ -90,12 +90,52 @@ func (x *Exec) frameEnv(st *State, fr *Frame) *CEnv {
 	return env
 }
 
+// load reads through p in the current heap view; the type invariants of the loaded
+// value (true in every reachable state) are added as side facts.
+func (e *CEnv) load(p *Ptr) *Val {
+	v := e.st.loadFrom(e.view(), p)
+	if e.inOld {
+		return v // references in the old state are bounded by the old allocation counter; skip
+	}
+	f := e.st.wellFormed(v)
+	if e.sides != nil {
+		*e.sides = append(*e.sides, f)
+	} else {
+		e.st.assume(f)
+	}
+	return v
+}
+
 func (e *CEnv) evalBool(c Clause) Tm {
 	v := e.eval(c.Expr)
 	if v.K != KBool {
 		e.errf("clause %q is not boolean", c.Src)
 	}
 	return v.S
+}
+
+// mkForall builds (forall (binders) body), merging directly nested universal quantifiers
+// (one multi-variable quantifier gives the solvers a multi-pattern to work with).
+func mkForall(binders string, body Tm) Tm {
+	if strings.HasPrefix(body.S, "(forall (") {
+		// find end of inner binder list
+		depth := 0
+		start := len("(forall ")
+		for i := start; i < len(body.S); i++ {
+			switch body.S[i] {
+			case '(':
+				depth++
+			case ')':
+				depth--
+				if depth == 0 {
+					inner := body.S[start+1 : i]
+					rest := strings.TrimSpace(body.S[i+1 : len(body.S)-1])
+					return tm(SBool, "(forall (%s %s) %s)", binders, inner, rest)
+				}
+			}
+		}
+	}
+	return tm(SBool, "(forall (%s) %s)", binders, body.S)
 }
 
 func boolVal(t Tm) *Val { return &Val{T: types.Typ[types.Bool], K: KBool, S: t} }
@@ -179,7 +219,7 @@ func (e *CEnv) eval(ex ast.Expr) *Val {
 		if p.K != KPtr {
 			e.errf("dereference of non-pointer")
 		}
-		return e.st.loadFrom(e.view(), ptrOf(p))
+		return e.load(ptrOf(p))
 	case *ast.SelectorExpr:
 		return e.selector(n)
 	case *ast.IndexExpr:
@@ -189,14 +229,14 @@ func (e *CEnv) eval(ex ast.Expr) *Val {
 		switch a.K {
 		case KSlice:
 			et := a.T.Underlying().(*types.Slice).Elem()
-			return e.st.loadFrom(e.view(), e.st.elemPtr(et, a.arr(), m.add(a.off(), iv)))
+			return e.load(e.st.elemPtr(et, a.arr(), m.add(a.off(), iv)))
 		case KString:
-			return e.st.loadFrom(e.view(), e.st.elemPtr(types.Typ[types.Uint8], a.arr(), m.add(a.off(), iv)))
+			return e.load(e.st.elemPtr(types.Typ[types.Uint8], a.arr(), m.add(a.off(), iv)))
 		case KSeq:
 			return &Val{T: types.Typ[types.Uint8], K: KInt, S: sel(a.S, m.add(a.Fs[0].S, iv), m.intSort(intInfo{8, false}))}
 		case KPtr:
 			if at, ok := deref(a.T).Underlying().(*types.Array); ok {
-				return e.st.loadFrom(e.view(), e.st.elemPtr(at.Elem(), a.S, iv))
+				return e.load(e.st.elemPtr(at.Elem(), a.S, iv))
 			}
 		}
 		e.errf("cannot index %v", a.K)
@@ -284,7 +324,7 @@ func (e *CEnv) ident(name string) *Val {
 			return v
 		}
 		if p, ok := fd.allocs[name]; ok {
-			return e.st.loadFrom(e.view(), ptrOf(p))
+			return e.load(ptrOf(p))
 		}
 	}
 	for _, fv := range e.freevars {
@@ -292,7 +332,7 @@ func (e *CEnv) ident(name string) *Val {
 			// captured variables are held by reference
 			if fv.val.K == KPtr {
 				if _, isPtr := fv.val.T.Underlying().(*types.Pointer); isPtr {
-					return e.st.loadFrom(e.view(), ptrOf(fv.val))
+					return e.load(ptrOf(fv.val))
 				}
 			}
 			return fv.val
@@ -364,7 +404,7 @@ func (e *CEnv) pkgMember(pkgPath, name string) *Val {
 		gname := p.Pkg.Path() + "." + mm.Name()
 		pt := mm.Type().(*types.Pointer)
 		e.x.noteGlobal(gname, pt.Elem())
-		return e.st.loadFrom(e.view(), &Ptr{Kind: PGlobal, Glob: gname, Root: pt.Elem(), Base: Tm{"0", SInt}})
+		return e.load(&Ptr{Kind: PGlobal, Glob: gname, Root: pt.Elem(), Base: Tm{"0", SInt}})
 	}
 	return nil
 }
@@ -423,7 +463,7 @@ func (e *CEnv) field(base *Val, name string) *Val {
 			for _, i := range path {
 				q = q.withField(i)
 			}
-			return e.st.loadFrom(e.view(), q)
+			return e.load(q)
 		}
 		e.errf("type %s has no field %s", t, name)
 	case KStruct:
@@ -573,6 +613,12 @@ func (e *CEnv) binary(n *ast.BinaryExpr) *Val {
 func (e *CEnv) ptrTerm(v *Val) Tm {
 	if v.P != nil && (v.P.Kind == PElem || len(v.P.Path) > 0) {
 		e.x.declAddrUFs(e.st.m)
+		f := v.P.addrFacts(e.st.m)
+		if e.sides != nil {
+			*e.sides = append(*e.sides, f)
+		} else {
+			e.st.assume(f)
+		}
 		return v.P.addrTerm(e.st.m)
 	}
 	return v.S
@@ -730,7 +776,7 @@ func (e *CEnv) call(n *ast.CallExpr) *Val {
 		var sides []Tm
 		sub.sides = &sides
 		body := sub.eval(n.Args[1])
-		return boolVal(tm(SBool, "(forall ((%s %s)) %s)", bn, m.idx(), implies(and(sides...), body.S).S))
+		return boolVal(mkForall(fmt.Sprintf("(%s %s)", bn, m.idx()), implies(and(sides...), body.S)))
 	case "forallv":
 		// forallv(x, T, P): for all values x of Go type T
 		if len(n.Args) != 3 {
@@ -751,7 +797,7 @@ func (e *CEnv) call(n *ast.CallExpr) *Val {
 		var sides []Tm
 		sub.sides = &sides
 		body := sub.eval(n.Args[2])
-		return boolVal(tm(SBool, "(forall (%s) %s)", strings.Join(bvs, " "), implies(and(sides...), body.S).S))
+		return boolVal(mkForall(strings.Join(bvs, " "), implies(and(sides...), body.S)))
 	case "bytype":
 		// bytype(x, "T1", e1, "T2", e2, ...): static dispatch on the Go type of x
 		if len(n.Args) < 3 || len(n.Args)%2 != 1 {
@@ -768,6 +814,12 @@ func (e *CEnv) call(n *ast.CallExpr) *Val {
 			}
 		}
 		e.errf("bytype: no case for type %s", have)
+	case "statictypeid":
+		xv := e.args(n, 1, "statictypeid")[0]
+		if xv.T == nil {
+			e.errf("statictypeid: value has no static type")
+		}
+		return &Val{T: types.Typ[types.UnsafePointer], K: KPtr, S: Tm{fmt.Sprint(e.x.typeID(xv.T)), SInt}}
 	case "typeid":
 		t := e.resolveT(n.Args[0])
 		return &Val{T: types.Typ[types.UnsafePointer], K: KPtr, S: Tm{fmt.Sprint(e.x.typeID(t)), SInt}}
@@ -783,7 +835,7 @@ func (e *CEnv) call(n *ast.CallExpr) *Val {
 		var sides []Tm
 		sub.sides = &sides
 		body := sub.eval(n.Args[1])
-		return boolVal(tm(SBool, "(forall ((%s Int)) %s)", bn, implies(and(sides...), body.S).S))
+		return boolVal(mkForall(fmt.Sprintf("(%s Int)", bn), implies(and(sides...), body.S)))
 	case "panicked":
 		return boolVal(boolTm(e.panicked))
 	case "panicval":
@@ -923,9 +975,18 @@ func (e *CEnv) call(n *ast.CallExpr) *Val {
 		_ = t
 		return a
 	}
-	// spec function?
+	// spec function? (a package qualifier is accepted and ignored: spec names are global)
+	bare := fname
+	if i := strings.LastIndex(fname, "."); i >= 0 {
+		bare = fname[i+1:]
+	}
 	if sf, ok := e.x.cs.Specs[fname]; ok {
 		return e.applySpec(sf, n)
+	}
+	if sf, ok := e.x.cs.Specs[bare]; ok && bare != fname {
+		if _, isVar := e.lookupMaybe(fname[:strings.LastIndex(fname, ".")]); !isVar {
+			return e.applySpec(sf, n)
+		}
 	}
 	if gd, ok := e.x.cs.Ghosts[fname]; ok {
 		return e.ghostApp(gd, n)
@@ -954,8 +1015,11 @@ func (e *CEnv) call(n *ast.CallExpr) *Val {
 // resolveT resolves a type expression; type parameter names of the function
 // under verification resolve to the instance's type arguments.
 func (e *CEnv) resolveT(ex ast.Expr) types.Type {
-	if id, ok := ex.(*ast.Ident); ok && e.x.curFn != nil {
+	if id, ok := ex.(*ast.Ident); ok && (e.x.curFn != nil || e.x.tscope != nil) {
 		fn := e.x.curFn
+		if e.x.tscope != nil {
+			fn = e.x.tscope
+		}
 		if o := fn.Origin(); o != nil {
 			tps := o.TypeParams()
 			for i := 0; i < tps.Len(); i++ {
